@@ -1798,3 +1798,69 @@ Proof.
     pose proof (reporter_concrete add_time m1 m2 evs reporter_init Hok) as H. unfold process_out.
     destruct (run_script m1 m2 reporter_init (map (to_event add_time) evs)) as [[k' os] cs']. cbn [fst]. tauto.
 Qed.
+
+(* ---- retrieve does not depend on whether the lines carry their terminator -------------------- *)
+
+Lemma strip_prefix_snoc_nl p : mem_ch NL p = false ->
+  forall t, strip_prefix p (t ++ [NL]) = option_map (fun r => r ++ [NL]) (strip_prefix p t).
+Proof.
+  induction p as [|a p IH]; intros Hp t; [reflexivity|].
+  cbn [mem_ch] in Hp. apply orb_false_iff in Hp. destruct Hp as [Ha Hp].
+  destruct t as [|c t].
+  - cbn [app]. rewrite strip_prefix_cons. rewrite Z.eqb_sym in Ha. rewrite Ha. reflexivity.
+  - rewrite <- app_comm_cons, !strip_prefix_cons. destruct (Z.eqb a c); [apply IH; exact Hp | reflexivity].
+Qed.
+
+Lemma line_of_snoc_nl t : line_of (t ++ [NL]) = line_of t.
+Proof.
+  induction t as [|c t IH]; [reflexivity|]. rewrite <- app_comm_cons. cbn [line_of].
+  destruct (Z.eqb c NL); [reflexivity | rewrite IH; reflexivity].
+Qed.
+
+Lemma match_here_snoc_nl t : match_here (t ++ [NL]) = match_here t.
+Proof.
+  unfold match_here. rewrite (strip_prefix_snoc_nl PRE PRE_no_nl).
+  destruct (strip_prefix PRE t) as [r|]; [|reflexivity]. cbn [option_map]. rewrite line_of_snoc_nl. reflexivity.
+Qed.
+
+Lemma scan_snoc_nl : forall t k, scan (t ++ [NL]) k = scan t k.
+Proof.
+  induction t as [|c r IH]; intro k.
+  - cbn [app]. destruct k; reflexivity.
+  - pose proof (match_here_snoc_nl (c :: r)) as M. rewrite <- app_comm_cons in *.
+    destruct k as [|k]; cbn [scan]; [|apply IH].
+    rewrite M. destruct (match_here (c :: r)); [f_equal|]; apply IH.
+Qed.
+
+Lemma strip_nl_cons2 c d r : strip_nl (c :: d :: r) = c :: strip_nl (d :: r).
+Proof. reflexivity. Qed.
+
+Lemma strip_nl_cases t : t = strip_nl t \/ t = strip_nl t ++ [NL].
+Proof.
+  induction t as [|c t IH]; [left; reflexivity|]. destruct t as [|d t].
+  - cbn [strip_nl]. destruct (Z.eqb c NL) eqn:E; [right; apply Z.eqb_eq in E; subst; reflexivity | left; reflexivity].
+  - rewrite strip_nl_cons2. destruct IH as [IH | IH]; [left | right]; rewrite <- ?app_comm_cons; f_equal; exact IH.
+Qed.
+
+Lemma join_strip_readlines t : join_nl (map strip_nl (readlines t)) = strip_nl t.
+Proof.
+  induction t as [|c r IH]; [reflexivity|].
+  pose proof (readlines_lines_nonempty r) as Hne.
+  destruct (Z.eqb c NL) eqn:E.
+  - apply Z.eqb_eq in E. subst c. change (readlines (NL :: r)) with ([NL] :: readlines r).
+    destruct r as [|d r']; [reflexivity|]. rewrite strip_nl_cons2, <- IH.
+    destruct (readlines (d :: r')) as [|l ls] eqn:El; [apply readlines_nil_iff in El; discriminate|].
+    reflexivity.
+  - rewrite (readlines_cons_nonl c r E). destruct (readlines r) as [|l ls] eqn:El.
+    + apply readlines_nil_iff in El. subst r. cbn [map strip_nl join_nl]. rewrite E. reflexivity.
+    + inversion Hne as [|? ? Hl _]; subst. destruct r as [|d r']; [discriminate El|].
+      rewrite strip_nl_cons2, <- IH. destruct l as [|e l']; [congruence|].
+      cbn [map]. rewrite strip_nl_cons2. destruct (map strip_nl ls); reflexivity.
+Qed.
+
+Theorem retrieve_stripped_lines t : retrieve_model (map strip_nl (readlines t)) = findall t.
+Proof.
+  unfold retrieve_model, findall. rewrite join_strip_readlines.
+  destruct (strip_nl_cases t) as [H | H]; [rewrite <- H; reflexivity|].
+  rewrite H at 2. rewrite scan_snoc_nl. reflexivity.
+Qed.
